@@ -39,10 +39,11 @@ def run(ctx):
 
 MANIFEST = {
     "text": "Theorems (Coq, no axioms, generic in every external oracle) about an executable Gallina model of pint's parser over the "
-            "yaml.v3 node forest: (1) relaxed = strict on every strict-valid forest satisfying a guard (same rules: kind, name, expr, "
-            "fields, line ranges, in order); the two classes of counterexamples to the unguarded statement that the proof attempt found (alias "
+            "yaml.v3 node forest: (1) relaxed = strict on EVERY strict-valid document (same rules: kind, name, expr, fields, line ranges, in "
+            "order) - the full statement is proved; its only premises are structural facts of yaml.v3 forests (decidable, proved-sound check "
+            "shaped_b evaluated on every correspondence case) and one fact about the null-decoding oracle; the two classes of counterexamples to the unguarded statement that the proof attempt found (alias "
             "used as mapping key; explicit tag contradicting the node kind) were repaired in pint (3dfcdb6, b22de24 + 4a0d172) and are now "
-            "regression theorems, the guard is kept as a sufficient condition; (2) the relaxed descent terminates on every forest (fuel = height always "
+            "regression theorems, and the former guard on tags is now DERIVED from strict validity; (2) the relaxed descent terminates on every forest (fuel = height always "
             "suffices); (3) wrapper invariance for ALL forests and all wrappers made of mapping levels, sequence levels, document/alias levels, "
             "YAML-in-YAML levels (literal block scalars pint re-parses, e.g. a ConfigMap), sibling keys/items and extra documents: the rules found "
             "in the wrapped node are exactly the rules found in the hole; the key above a rule list is irrelevant unless it is `groups`. Tie: "
